@@ -42,6 +42,14 @@ class Connection:
     previous = gfa._search_duplicate(self)
     if previous:
       if previous.virtual:
+        if not isinstance(previous, gfapy.line.Unknown) and \
+            previous.record_type != self.record_type:
+          # the identifier is known as that of a line of another type
+          raise gfapy.NotUniqueError(
+            "Line or ID not unique\n"+
+            "Line: {}\n".format(self)+
+            "The identifier is already used as {} identifier".format(
+              previous.record_type))
         return self._substitute_virtual_line(previous)
       else:
         return self._process_not_unique(previous)
